@@ -383,6 +383,7 @@ fn is_real_spelling(s: &str) -> bool {
 
 #[derive(Default)]
 struct Acc {
+    by_setting: BTreeMap<&'static str, u64>,
     res: PropResult,
     distinct: HashSet<u64>,
     delivered: u64,
@@ -426,15 +427,52 @@ fn kind_idx(k: &K) -> u8 {
 /// Judge one end-to-end execution of `header lit[,lit...]` against the model outcomes.
 fn judge_e2e(acc: &mut Acc, iface: &IfaceDesc, h: u16, tys: &[Ty], lits: &[LitCase], input: &[u8]) {
     acc.distinct.insert(fnv(input));
-    par::case_begin(input, [0, 0, 0, 0]);
-    let out = (iface.run)(&RunSpec { inputs: &[input], writer: WriterKind::Rec(None), pend_seed: 0 });
+    // the same unit in three settings: alone through `run`; behind another (valid) unit of the
+    // same message; as a byte stream through `process` in random chunks
+    let pair = iface.decls.iter().position(|d| d.cmd.eq_ignore_ascii_case("MIX:PAIR"));
+    let setting = match (fnv(input) >> 7) % 4 {
+        1 if pair.is_some() => 1,
+        2 if input.len() <= 900 => 2,
+        _ => 0,
+    };
+    let mut framed: Vec<u8> = Vec::new();
+    if setting == 1 {
+        framed.extend_from_slice(b"MIX:PAIR 11,22;:");
+    }
+    framed.extend_from_slice(input);
+    let input: &[u8] = &framed;
+    par::case_begin(input, [setting as u64, 0, 0, 0]);
+    let out = if setting == 2 {
+        let mut r = Rng::new(fnv(input) | 1);
+        let chunks = super::c05::random_chunks(&mut r, input.len());
+        (iface.process)(&crate::drive::ProcSpec { stream: input, n: 1024, chunks: &chunks, pend_seed: 0, fault_at: None })
+    }
+    else {
+        (iface.run)(&RunSpec { inputs: &[input], writer: WriterKind::Rec(None), pend_seed: 0 })
+    };
     par::case_end();
     if out.crashed() {
         acc.res.skipped_crash += 1;
         return;
     }
     acc.res.evaluations += 1;
-    let got = streams(&out.log);
+    *acc.by_setting.entry(["run", "run, behind another unit", "process, random chunks"][setting]).or_default() += 1;
+    let mut got = streams(&out.log);
+    if setting == 1 {
+        // the unit in front must have run first, with its own two arguments
+        let want = Sem::Call { h: pair.unwrap() as u16, args: vec![Arg::U16(11), Arg::U16(22)], ok: true };
+        if got.ce.first() == Some(&want) {
+            got.ce.remove(0);
+        }
+        else {
+            acc.res.add_violation(Violation {
+                sig: "unit-in-front-lost-or-altered".into(),
+                summary: format!("\"{}\": the first unit (MIX:PAIR 11,22) was not executed first and unchanged: {}", esc(&input[..input.len().min(160)]), got.show().join(" ")),
+                witness: J::obj(vec![("iface", J::s(iface.name)), ("input", J::s(esc(input))), ("input_hex", J::s(hex(input))), ("observed", J::strs(got.show()))]),
+            });
+            return;
+        }
+    }
     acc.res.sample(|| J::obj(vec![("input", J::s(esc(&input[..input.len().min(200)]))), ("declared", J::strs(tys.iter().map(|t| t.name().to_string()))), ("observed", J::strs(got.show()))]));
     let calls: Vec<&Sem> = got.ce.iter().filter(|s| matches!(s, Sem::Call { .. })).collect();
     let errs: Vec<i16> = got.ce.iter().filter_map(|s| if let Sem::Err { num, .. } = s { Some(*num) } else { None }).collect();
@@ -874,6 +912,7 @@ pub fn run(ctx: &Ctx) -> PropResult {
     );
     let mut distinct = HashSet::new();
     let mut by_type: BTreeMap<&'static str, u64> = BTreeMap::new();
+    let mut by_setting: BTreeMap<&'static str, u64> = BTreeMap::new();
     let mut by_kind: BTreeMap<&'static str, u64> = BTreeMap::new();
     let mut cells = HashSet::new();
     let mut arities = HashSet::new();
@@ -882,6 +921,9 @@ pub fn run(ctx: &Ctx) -> PropResult {
     let mut floatlog: Vec<String> = Vec::new();
     for acc in accs {
         distinct.extend(acc.distinct);
+        for (k, v) in acc.by_setting {
+            *by_setting.entry(k).or_default() += v;
+        }
         for (k, v) in acc.by_type {
             *by_type.entry(k).or_default() += v;
         }
@@ -918,6 +960,7 @@ pub fn run(ctx: &Ctx) -> PropResult {
     res.cov("kind_x_type_cells_exercised", cells.len());
     res.cov("kind_x_type_cells_total", 8usize * 15);
     res.cov("arity_pairs_declared_written", arities.len());
+    res.cov("end_to_end_cases_by_setting", J::Obj(by_setting.into_iter().map(|(k, v)| (k.to_string(), J::Int(v as i64))).collect()));
     res.cov("parameters_by_type", J::Obj(by_type.into_iter().map(|(k, v)| (k.to_string(), J::Int(v as i64))).collect()));
     res.cov("literals_by_kind", J::Obj(by_kind.into_iter().map(|(k, v)| (k.to_string(), J::Int(v as i64))).collect()));
     res.cov("error_numbers_observed", J::Obj(errs.into_iter().map(|(k, v)| (k.to_string(), J::Int(v as i64))).collect()));
